@@ -248,7 +248,7 @@ func (m *fStompSubscriberTransport) Subscribe(topic string, callback FAsyncCallb
 	m.isSubscribed = true
 	m.callback = callback
 	m.topic = destination
-	go m.processMessages()
+	go m.processMessages(sub, callback, m.stopC)
 	return nil
 }
 
@@ -284,13 +284,12 @@ func (m *fStompSubscriberTransport) Unsubscribe() error {
 
 // processMessages call the given FAsyncCallback with messages from the
 // subscription channel.
-func (m *fStompSubscriberTransport) processMessages() {
-	// The loop works on the subscription and callback it was started for:
-	// Unsubscribe clears m.callback while a message may still be on its way
-	// to the callback.
-	stopC := m.stopC
-	sub := m.sub
-	callback := m.callback
+//
+// The loop works on the subscription, callback and stop channel it was started
+// for, handed over by Subscribe: Unsubscribe clears m.callback while a message
+// may still be on its way to the callback, and may even have run before this
+// goroutine is scheduled for the first time.
+func (m *fStompSubscriberTransport) processMessages(sub *stomp.Subscription, callback FAsyncCallback, stopC chan bool) {
 	for {
 		select {
 		case <-stopC:
